@@ -10,7 +10,7 @@ from cfg import callee, is_panic_call, const_int
 from rules.common import cfg_of, tracer_of, fn_of
 import anchors
 
-INTERESTING_ADTS = ("actor_result::ActorResult", "error::Error", "MailboxMessage", "ControlSignal", "actor_result::FailurePhase",
+INTERESTING_ADTS = ("actor_result::ActorResult", "error::Error", "actor_result::FailurePhase",
                     "dead_letter::DeadLetterReason")
 SCAFFOLD_PATHS = (
     "core::future::into_future::IntoFuture::into_future", "core::pin::{impl#", "core::future::get_context", "core::future::future::Future::poll",
@@ -31,8 +31,10 @@ def span_is_logging(f, span_id):
 class Allow:
     """Additive allow-list: callee patterns a feature may add without changing behaviour."""
 
-    def __init__(self, f):
+    def __init__(self, f, strict_local=False):
         self.f = f
+        self.strict_local = strict_local    # do not erase crate-local callees (used to audit the erased functions themselves)
+        self.erased_local = set()           # crate-local functions erased so far (to be audited)
 
     def erased_call(self, body, blk):
         fn = fn_of(blk)
@@ -52,12 +54,21 @@ class Allow:
             return "formatting / pure std"
         if p.startswith("std::time::{impl") or d.startswith("std::time::Instant") or d.startswith("std::time::SystemTime"):
             return "clock read (observation)"
-        if d.startswith("metrics::") or nm == "metrics_collector":
-            return "metrics (observation)"
+        local = kr == self.f.crate
+        rd = (fn.get("resolved") or {}).get("def") or d
+        if local and (d.startswith("metrics::") or nm == "metrics_collector" or rd.startswith("<metrics::") or "metrics::" in rd):
+            self.erased_local.add(rd)
+            return None if self.strict_local and rd != body.defn else "metrics (observation)"
         if d in ("actor_ref::ActorRef::<T>::identity", "actor_ref::ActorWeak::<T>::identity", "Identity::name", "Identity::new"):
+            self.erased_local.add(d)
             return "pure getter"
-        if d in anchors.wait_map_fns(self.f) or nm in ("try_with", "scope") and "LocalKey" in d:
-            return "wait-for bookkeeping / task-local scope"
+        if d in anchors.wait_map_fns(self.f):
+            self.erased_local.add(d)
+            return None if self.strict_local else "wait-for bookkeeping"
+        if nm in ("try_with", "scope") and "LocalKey" in d:
+            return "task-local scope"
+        if self.strict_local and (d.startswith("std::sync::atomic::Atomic") or p.startswith("core::sync::atomic")):
+            return "atomic counter update (observation)"
         if d.startswith("std::collections::HashMap") or (d.startswith("std::sync::Mutex") and nm == "lock") or d.startswith("std::sync::OnceLock") and nm in ("get_or_init",):
             return "wait-for bookkeeping"
         if d.startswith("std::sync::Arc") and nm in ("new", "clone"):
@@ -128,8 +139,10 @@ def events_of(f, body, allow):
             loc = f.span(st["span"]).loc
             if span_is_logging(f, st["span"]):
                 continue
-            if "agg" in rv and rv["agg"] == "adt" and rv["adt"] in INTERESTING_ADTS:
-                lst.append(("build", "%s::%s" % (rv["adt"], rv["variant"]), loc))
+            nmz = anchors.names(f)
+            if "agg" in rv and rv["agg"] == "adt" and (rv["adt"] in INTERESTING_ADTS or rv["adt"] in (nmz.mailbox, nmz.control)):
+                role = "mailbox-message" if rv["adt"] == nmz.mailbox else "control-signal" if rv["adt"] == nmz.control else rv["adt"]
+                lst.append(("build", "%s::%s" % (role, rv["variant"]), loc))
             pl = st["place"]
             if not pl["p"] and body.locals[pl["l"]].get("user") and body.locals[pl["l"]].get("name") and "use" in rv:
                 c = const_int(rv["use"])
